@@ -61,7 +61,7 @@ def compare(ops, impl, model):
         a = canon_obs(kind, impl[i])
         b = canon_obs(kind, model[i])
         if a != b:
-            keys = sorted(set(a) | set(b))
+            keys = sorted(set(a) | set(b), key=lambda k: (k != 'out', k))
             for k in keys:
                 if a.get(k) != b.get(k):
                     yield (i, kind, sub, k, a.get(k), b.get(k))
